@@ -333,6 +333,8 @@ def _dump_single_output(
     output: Any,
     store: dict[str, StoreType],
 ) -> tuple[Any, ...]:
+    if isinstance(output, _LoadedOutputs):
+        return tuple(output)  # loaded from the store: nothing to pick or dump
     if isinstance(func.output_name, tuple):
         new_output = []  # output in same order as func.output_name
         for output_name in func.output_name:
@@ -734,6 +736,10 @@ def _maybe_execute_single(
     return _execute_single(*args)
 
 
+class _LoadedOutputs(list):
+    """Outputs of a multi-output function that were loaded from the store (one item per output name)."""
+
+
 class _StoredValue(NamedTuple):
     value: Any
     exists: bool
@@ -783,6 +789,8 @@ def _execute_single(
     # Load the output if it exists
     output, exists = _load_from_store(func.output_name, store, return_output=True)
     if exists:
+        if isinstance(func.output_name, tuple):
+            return _LoadedOutputs(output)  # already picked per output name
         return output
 
     # Otherwise, run the function
